@@ -28,11 +28,13 @@ struct ShapeBuilder {
     int n = 0;
     std::set<std::pair<int, int>> have;
     std::vector<std::array<int, 2>> edges;
-    bool add(int u, int v) {
+    std::vector<double> pref;   // shape-specific preferred weight per edge (0 = none)
+    bool add(int u, int v, double w = 0) {
         if (u == v) return false;
         auto p = std::minmax(u, v);
         if (!have.insert(p).second) return false;
         edges.push_back({u, v});
+        pref.push_back(w);
         return true;
     }
 };
@@ -120,6 +122,35 @@ inline void shape_into(ShapeBuilder &sb, int base, int n, int shape) {
                     int prev = 0;
                     for (int i = 0; i < inner && next < n; i++) { sb.add(V(prev), V(next)); prev = next++; }
                     sb.add(V(prev), V(1));
+                }
+            }
+            break;
+        }
+        case 12: {  // two terminals, M similar short routes plus one deviating route: long, light, optionally ending in a heavy edge
+            // (weighted distance and hop distance disagree strongly: the tight family for spanner stretch)
+            if (n >= 4) {
+                int s = 0, t = 1, next = 2;
+                int spoke_len = coin(75) ? 2 : 3;
+                int dev_len = pick(2, 7);
+                int base = pick(1, 10);
+                double heavy = coin(50) ? (coin(50) ? 1000.0 : 50.0) : 1.0;
+                // deviating route first (takes dev_len-1 inner vertices)
+                if (next + dev_len - 1 <= n) {
+                    int prev = s;
+                    int heavy_at = coin(70) ? dev_len - 1 : pick(0, dev_len - 1);
+                    for (int i = 0; i < dev_len; i++) {
+                        int to = (i == dev_len - 1) ? t : next++;
+                        sb.add(V(prev), V(to), i == heavy_at ? heavy : 1.0);
+                        prev = to;
+                    }
+                }
+                while (next + spoke_len - 1 <= n) {
+                    int prev = s;
+                    for (int i = 0; i < spoke_len; i++) {
+                        int to = (i == spoke_len - 1) ? t : next++;
+                        if (coin(50)) sb.add(V(prev), V(to), base + pick(0, 1)); else sb.add(V(to), V(prev), base + pick(0, 1));
+                        prev = to;
+                    }
                 }
             }
             break;
@@ -219,7 +250,7 @@ inline GraphSpec gen_graph_raw(const GenOpts &o, WDom dom) {
         int remaining = total_n - base;
         if (remaining <= 0) break;
         int np = (p == parts - 1) ? remaining : pick(0, remaining);
-        static const int shape_tab[] = {0, 0, 0, 1, 1, 1, 1, 1, 2, 3, 3, 4, 4, 5, 5, 5, 6, 6, 7, 7, 8, 8, 9, 10, 10, 11, 11};
+        static const int shape_tab[] = {0, 0, 0, 1, 1, 1, 1, 1, 2, 3, 3, 4, 4, 5, 5, 5, 6, 6, 7, 7, 8, 8, 9, 10, 10, 11, 11, 12, 12, 12};
         int shape = shape_tab[pick(0, (int) (sizeof shape_tab / sizeof shape_tab[0]) - 1)];
         if (!o.dense_ok && (shape == 11)) shape = 0;
         shape_into(sb, base, np, shape);
@@ -256,7 +287,10 @@ inline GraphSpec gen_graph_raw(const GenOpts &o, WDom dom) {
     if ((int) g.edges.size() > o.maxM) g.edges.resize(o.maxM);
     bool int_safe = (dom == WDom::ExactInt);
     g.w = gen_weights(g.m(), int_safe ? WDom::Exact : dom, o.tie_bias, int_safe);
-    if (coin(70)) permute_spec(g);
+    if ((dom == WDom::Exact || dom == WDom::ExactInt) && coin(70)) {
+        for (int i = 0; i < g.m(); i++) if (sb.pref[i] > 0) g.w[i] = sb.pref[i];   // shape-specific weights where the shape defines them
+    }
+    if (coin(60)) permute_spec(g);
     return g;
 }
 
